@@ -1005,7 +1005,9 @@ class NestedSampler(BaseNestedSampler):
             # Use dotted linestyle (ls[2]) because dashed isn't clear
             ax_logX_grad.plot(
                 logX_its,
-                rolling_mean(np.abs(self.state.gradients), self.nlive // 10),
+                rolling_mean(
+                    np.abs(self.state.gradients), max(self.nlive // 10, 1)
+                ),
                 c="C1",
                 ls=config.plotting.line_styles[1],
                 label="Gradient",
